@@ -161,22 +161,28 @@ type stmtDesc struct {
 	Level   string   `json:"level"`
 	AuthLog bool     `json:"auth_log,omitempty"`
 	TSOpt   string   `json:"ts_opt,omitempty"`
+	Global  bool     `json:"global_policy,omitempty"` // blob statements only
 }
 
 type c03Case struct {
-	Family  string      `json:"family"`
-	Repo    string      `json:"repository,omitempty"` // artifact path of the reference (default TestScope)
-	Before  []string    `json:"earlier_calls_on_same_verifier,omitempty"`
-	Chain   string      `json:"chain"`
-	Format  string      `json:"format"`
-	SA      bool        `json:"signing_authority"`
-	TS      int         `json:"timestamp_variant"`
-	Stmts   []stmtDesc  `json:"statements"`
-	Stores  []storeDesc `json:"stores"`
-	Real    bool        `json:"real_store,omitempty"`
-	Mutate  []string    `json:"mutated_stores,omitempty"` // replaces the stores of statement "sel" after validation
-	Labels  []string    `json:"labels,omitempty"`
-	ChainID []int64     `json:"chain_ids"`
+	Family string   `json:"family"`
+	Repo   string   `json:"repository,omitempty"` // artifact path of the reference (default TestScope)
+	Before []string `json:"earlier_calls_on_same_verifier,omitempty"`
+	// entry point VerifyBlob: the verifier also holds a blob document; this call names
+	// PolicyName ("" = the global statement)
+	Blob       bool        `json:"verify_blob,omitempty"`
+	BlobStmts  []stmtDesc  `json:"blob_statements,omitempty"`
+	PolicyName string      `json:"trust_policy_name,omitempty"`
+	Chain      string      `json:"chain"`
+	Format     string      `json:"format"`
+	SA         bool        `json:"signing_authority"`
+	TS         int         `json:"timestamp_variant"`
+	Stmts      []stmtDesc  `json:"statements"`
+	Stores     []storeDesc `json:"stores"`
+	Real       bool        `json:"real_store,omitempty"`
+	Mutate     []string    `json:"mutated_stores,omitempty"` // replaces the stores of statement "sel" after validation
+	Labels     []string    `json:"labels,omitempty"`
+	ChainID    []int64     `json:"chain_ids"`
 	// observation
 	Auth     string   `json:"obs_auth"`
 	Calls    []string `json:"obs_calls"`
@@ -355,11 +361,13 @@ func runC03(a *Args) error {
 	digestPart := strings.TrimPrefix(TestRef, TestScope)
 	type session struct {
 		v      notation.Verifier
+		bv     notation.BlobVerifier
 		rec    *recStore
 		inner  truststore.X509TrustStore
 		mock   *MockStore
 		selIdx int
 		doc    *trustpolicy.OCIDocument
+		bdoc   *trustpolicy.BlobDocument
 		// caller-owned option maps; a history hands the SAME objects to consecutive calls
 		userMeta  map[string]string
 		pluginCfg map[string]string
@@ -422,11 +430,24 @@ func runC03(a *Args) error {
 				ss.selIdx = i
 			}
 		}
-		v, err := verifier.NewVerifierWithOptions(ss.rec, verifier.VerifierOptions{OCITrustPolicy: doc})
+		var bdoc *trustpolicy.BlobDocument
+		if len(c.BlobStmts) > 0 {
+			bdoc = &trustpolicy.BlobDocument{Version: "1.0"}
+			for _, s := range c.BlobStmts {
+				override := map[trustpolicy.ValidationType]trustpolicy.ValidationAction{trustpolicy.TypeRevocation: trustpolicy.ActionSkip}
+				if s.AuthLog {
+					override[trustpolicy.TypeAuthenticity] = trustpolicy.ActionLog
+				}
+				bdoc.TrustPolicies = append(bdoc.TrustPolicies, trustpolicy.BlobTrustPolicy{Name: s.Name, GlobalPolicy: s.Global,
+					SignatureVerification: trustpolicy.SignatureVerification{VerificationLevel: s.Level, Override: override, VerifyTimestamp: trustpolicy.TimestampOption(s.TSOpt)},
+					TrustStores:           append([]string(nil), s.Stores...), TrustedIdentities: []string{"*"}})
+			}
+		}
+		v, err := verifier.NewVerifierWithOptions(ss.rec, verifier.VerifierOptions{OCITrustPolicy: doc, BlobTrustPolicy: bdoc})
 		if err != nil {
 			panic(fmt.Sprintf("c03: case %d: generated policy rejected: %v", my, err))
 		}
-		ss.v, ss.doc = v, doc
+		ss.v, ss.bv, ss.doc, ss.bdoc = v, v, doc, bdoc
 		if c.Mutate != nil && ss.selIdx >= 0 {
 			doc.TrustPolicies[ss.selIdx].TrustStores = append([]string(nil), c.Mutate...)
 		}
@@ -441,6 +462,14 @@ func runC03(a *Args) error {
 		nameSet := map[string]bool{}
 		for i := range c.Stmts {
 			for _, s := range finalStores(i) {
+				if t, n, ok := strings.Cut(s, ":"); ok {
+					typeSet[t] = true
+					nameSet[n] = true
+				}
+			}
+		}
+		for _, bs := range c.BlobStmts {
+			for _, s := range bs.Stores {
 				if t, n, ok := strings.Cut(s, ":"); ok {
 					typeSet[t] = true
 					nameSet[n] = true
@@ -534,6 +563,7 @@ func runC03(a *Args) error {
 			full  []*x509.Certificate
 		}
 		snapDoc, _ := json.Marshal(ss.doc)
+		snapBDoc, _ := json.Marshal(ss.bdoc)
 		snapDesc, _ := json.Marshal(desc)
 		snapEnv := append([]byte(nil), e.env[ekey]...)
 		snapMeta, _ := json.Marshal(ss.userMeta)
@@ -549,7 +579,15 @@ func runC03(a *Args) error {
 			poolRaw = append(poolRaw, pc.Raw)
 		}
 		opts := notation.VerifierVerifyOptions{ArtifactReference: c.Repo + digestPart, SignatureMediaType: c.Format, PluginConfig: ss.pluginCfg, UserMetadata: ss.userMeta}
-		outcome, verr := v.Verify(vctx, desc, e.env[ekey], opts)
+		var outcome *notation.VerificationOutcome
+		var verr error
+		if c.Blob {
+			gen := func(digest.Algorithm) (ocispec.Descriptor, error) { return desc, nil }
+			outcome, verr = ss.bv.VerifyBlob(vctx, gen, e.env[ekey], notation.BlobVerifierVerifyOptions{SignatureMediaType: c.Format,
+				PluginConfig: ss.pluginCfg, UserMetadata: ss.userMeta, TrustPolicyName: c.PolicyName})
+		} else {
+			outcome, verr = v.Verify(vctx, desc, e.env[ekey], opts)
+		}
 		madeCalls := rec.calls
 		if opt != nil {
 			madeCalls = *opt.calls
@@ -557,6 +595,9 @@ func runC03(a *Args) error {
 		var frame []string
 		if d, _ := json.Marshal(ss.doc); !bytes.Equal(d, snapDoc) {
 			frame = append(frame, "trust policy document")
+		}
+		if d, _ := json.Marshal(ss.bdoc); !bytes.Equal(d, snapBDoc) {
+			frame = append(frame, "blob trust policy document")
 		}
 		if d, _ := json.Marshal(desc); !bytes.Equal(d, snapDesc) {
 			frame = append(frame, "target descriptor")
@@ -651,7 +692,20 @@ func runC03(a *Args) error {
 			sch = "SSA"
 		}
 		var stmtTerms []string
-		for i, s := range c.Stmts {
+		stmtsOfEntry, repoOfEntry := c.Stmts, c.Repo
+		if c.Blob {
+			// the statement applicable to this entry point: by name among the blob statements
+			// (rendered as scope = name), or the global one (rendered as the wildcard)
+			stmtsOfEntry, repoOfEntry = nil, c.PolicyName
+			for _, s := range c.BlobStmts {
+				s.Scopes = []string{s.Name}
+				if c.PolicyName == "" && s.Global {
+					s.Scopes = []string{"*"}
+				}
+				stmtsOfEntry = append(stmtsOfEntry, s)
+			}
+		}
+		for i, s := range stmtsOfEntry {
 			act := "Enforce"
 			switch {
 			case s.Level == "skip":
@@ -660,13 +714,17 @@ func runC03(a *Args) error {
 				act = "Log"
 			}
 			demands := s.TSOpt != string(trustpolicy.OptionAfterCertExpiry) || e.expired
-			stmtTerms = append(stmtTerms, CApp("mk_stmt", CStr(s.Name), CStrList(s.Scopes), CStrList(finalStores(i)), act, CBool(demands)))
+			stl := s.Stores
+			if !c.Blob {
+				stl = finalStores(i)
+			}
+			stmtTerms = append(stmtTerms, CApp("mk_stmt", CStr(s.Name), CStrList(s.Scopes), CStrList(stl), act, CBool(demands)))
 		}
 		chainTerms := make([]string, len(e.ids))
 		for i, x := range e.ids {
 			chainTerms[i] = CN(x)
 		}
-		in := CApp("mk_input", sch, CList(stmtTerms), CStr(c.Repo), CList(fsTerms), CList(chainTerms), CBool(e.tokOK[ekey]))
+		in := CApp("mk_input", sch, CList(stmtTerms), CStr(repoOfEntry), CList(fsTerms), CList(chainTerms), CBool(e.tokOK[ekey]))
 		obs := CApp("mk_obs", authTerm, CList(callTerms), CBool(c.Stop))
 		term := CApp("mk_case", CN(my), in, obs)
 		placed := c.Real
@@ -686,6 +744,7 @@ func runC03(a *Args) error {
 		}
 		w.Add(my, term, c, in, nontriv)
 		w.Count("family", c.Family)
+		w.Count("entry_point", map[bool]string{false: "Verify", true: "VerifyBlob"}[c.Blob])
 		w.Count("chain", c.Chain)
 		w.Count("scheme", sch)
 		w.Count("format", c.Format)
@@ -1566,6 +1625,104 @@ func runC03(a *Args) error {
 		}
 		runHistory(steps)
 	}
+	// ---------- family 8b: the same statement NAME in two namespaces (OCI document / blob document) ----------
+	// ONE verifier holds both documents; their statements share names but differ in the
+	// trust-store list (or level / verifyTimestamp / tsa store); Verify and VerifyBlob
+	// alternate. Also two OCI statements with different lists, alternately.
+	nsKinds := []string{"oci-good/blob-noise", "oci-noise/blob-good", "oci-good/blob-fails", "oci-fails/blob-good", "oci-reqtype/blob-othertype",
+		"same-stores/levels-differ", "blob-adds-tsa", "tsopt-differs"}
+	nsOrders := [][]bool{{false, true}, {true, false}, {false, true, false}, {true, false, true}} // true = VerifyBlob
+	nk := 0
+	for _, kind := range nsKinds {
+		for _, sa := range []bool{false, true} {
+			for _, order := range nsOrders {
+				nk++
+				req, oth := "ca", "signingAuthority"
+				if sa {
+					req, oth = oth, req
+				}
+				e := envs["n3"]
+				stores := []storeDesc{
+					{Type: req, Name: "good", Certs: []int64{idUnrelRoot, e.ids[2]}},
+					{Type: req, Name: "noise", Certs: []int64{e.twins[0], idUnrelRoot}},
+					{Type: req, Name: "fails", Certs: []int64{e.ids[2]}, Fail: true},
+					{Type: oth, Name: "good", Certs: []int64{e.ids[2]}},
+					{Type: "tsa", Name: "t", Certs: []int64{idTSARoot}},
+				}
+				o := stmtDesc{Name: "P", Scopes: []string{TestScope}, Level: "strict"}
+				b := stmtDesc{Name: "P", Level: "strict", Global: nk%3 == 0}
+				ts := 0
+				switch kind {
+				case "oci-good/blob-noise":
+					o.Stores, b.Stores = []string{req + ":good"}, []string{req + ":noise"}
+				case "oci-noise/blob-good":
+					o.Stores, b.Stores = []string{req + ":noise"}, []string{req + ":noise", req + ":good"}
+				case "oci-good/blob-fails":
+					o.Stores, b.Stores = []string{req + ":good"}, []string{req + ":good", req + ":fails"}
+				case "oci-fails/blob-good":
+					o.Stores, b.Stores = []string{req + ":fails", req + ":good"}, []string{req + ":good"}
+				case "oci-reqtype/blob-othertype":
+					o.Stores, b.Stores = []string{req + ":good"}, []string{oth + ":good"}
+				case "same-stores/levels-differ":
+					o.Stores, b.Stores = []string{req + ":noise"}, []string{req + ":noise"}
+					b.Level = "audit"
+				case "blob-adds-tsa":
+					o.Stores, b.Stores = []string{req + ":good"}, []string{req + ":good", "tsa:t"}
+					ts = 1
+				case "tsopt-differs":
+					o.Stores, b.Stores = []string{req + ":good", "tsa:t"}, []string{req + ":good", "tsa:t"}
+					o.TSOpt, b.TSOpt = "always", "afterCertExpiry"
+					ts = 1
+				}
+				// a second pair of same-named statements with the contents exchanged
+				o2, b2 := b, o
+				o2.Name, b2.Name = "Q", "Q"
+				o2.Scopes, o2.Global, b2.Scopes, b2.Global = []string{"reg.example/other"}, false, nil, false
+				var steps []*c03Case
+				for k, blob := range order {
+					c := &c03Case{Family: "namespaces", Chain: "n3", Format: formats[(nk+k)%2], SA: sa, TS: ts, Repo: TestScope, Stmts: []stmtDesc{o, o2}, BlobStmts: []stmtDesc{b, b2},
+						Stores: stores, Blob: blob, PolicyName: "P", Labels: []string{"ns:" + kind, map[bool]string{false: "entry:Verify", true: "entry:VerifyBlob"}[blob]}}
+					if blob && b.Global && k%2 == 1 {
+						c.PolicyName = ""
+					}
+					if nk%2 == 0 { // use the exchanged pair
+						c.Repo, c.PolicyName = "reg.example/other", "Q"
+					}
+					steps = append(steps, c)
+				}
+				runHistory(steps)
+			}
+		}
+	}
+	// two OCI statements with different lists, verified alternately on one verifier
+	for ki, kind := range nsKinds[:5] {
+		for _, sa := range []bool{false, true} {
+			for ord := 0; ord < 2; ord++ {
+				req, oth := "ca", "signingAuthority"
+				if sa {
+					req, oth = oth, req
+				}
+				e := envs["n3"]
+				stores := []storeDesc{
+					{Type: req, Name: "good", Certs: []int64{e.ids[2]}},
+					{Type: req, Name: "noise", Certs: []int64{e.twins[0], idUnrelRoot}},
+					{Type: req, Name: "fails", Certs: []int64{e.ids[2]}, Fail: true},
+					{Type: oth, Name: "good", Certs: []int64{e.ids[2]}},
+				}
+				la := [][]string{{req + ":good"}, {req + ":noise"}, {req + ":good"}, {req + ":fails", req + ":good"}, {req + ":good"}}[ki]
+				lb := [][]string{{req + ":noise"}, {req + ":good"}, {req + ":good", req + ":fails"}, {req + ":good"}, {oth + ":good"}}[ki]
+				st := []stmtDesc{{Name: "A", Scopes: []string{TestScope}, Stores: la, Level: "strict"}, {Name: "B", Scopes: []string{"reg.example/other"}, Stores: lb, Level: "strict"}}
+				var steps []*c03Case
+				for k := 0; k < 4; k++ {
+					repo := []string{TestScope, "reg.example/other"}[(k+ord)%2]
+					steps = append(steps, &c03Case{Family: "namespaces", Chain: "n3", Format: formats[k%2], SA: sa, Repo: repo, Stmts: st, Stores: stores,
+						Labels: []string{"two-oci:" + kind, "entry:Verify"}})
+				}
+				runHistory(steps)
+			}
+		}
+	}
+
 	// ---------- family 9: concurrent use of ONE verifier (child process; last family: ids are stable before it) ----------
 	firstConc := id
 	if a.Only < 0 || a.Only >= firstConc {
